@@ -8,7 +8,7 @@ from sa.db import AnalysisError, FunctionInfo, dotted, mangle, norm_stmt, own_no
 from sa.flow import Interp
 
 CLAIM = {
-    "text": "Decides budget threading for every blocking function that carries a timeout (sync transports, endpoints, clients, the selector retry loop, lock_with_timeout, the receive iterators, the standalone server's shutdown/join): on every path - in particular around every loop - the value handed to a blocking primitive, yielded or returned as the remaining budget, or stored for the next call is *fresh*, i.e. it has been re-computed (by a timer that enclosed every blocking call made since) or handed back by the callee after each wait; a blocking callee that takes a timeout is given the current budget and nothing else; a budget known to be zero never reaches a selector/event wait; the selector wait is capped by min(remaining budget, retry interval); exhaustion surfaces as ETIMEDOUT; the clients use the budget yielded by lock_with_timeout (lock acquisition is part of the budget); the iterators leave a fresh budget behind on every normal return. A function that carries a budget in the clients acquires locks only through lock_with_timeout(), directly and in the same-class helpers it calls; the unbounded select() is guarded by an infinity test on the computed wait itself. Round 4: the exception edge of a blocking call carries a partly spent budget (a retry loop around it must re-compute); send loops make progress for every abstract input (C04.prog). Round 5: no timeout / delay / deadline value is tested by truthiness (zero is not 'absent'); the asyncio backend's current_time() is the running loop's clock and the deadline machinery reads no other clock. Round 6: every return of ElapsedTime.recompute_timeout is derived from the measured elapsed time (or is the clamp constant): no wait is free; a budget recomputed in the expression that yields / returns it is read like the assignment form.",
+    "text": "Decides budget threading for every blocking function that carries a timeout (sync transports, endpoints, clients, the selector retry loop, lock_with_timeout, the receive iterators, the standalone server's shutdown/join): on every path - in particular around every loop - the value handed to a blocking primitive, yielded or returned as the remaining budget, or stored for the next call is *fresh*, i.e. it has been re-computed (by a timer that enclosed every blocking call made since) or handed back by the callee after each wait; a blocking callee that takes a timeout is given the current budget and nothing else; a budget known to be zero never reaches a selector/event wait; the selector wait is capped by min(remaining budget, retry interval); exhaustion surfaces as ETIMEDOUT; the clients use the budget yielded by lock_with_timeout (lock acquisition is part of the budget); the iterators leave a fresh budget behind on every normal return. A function that carries a budget in the clients acquires locks only through lock_with_timeout(), directly and in the same-class helpers it calls; the unbounded select() is guarded by an infinity test on the computed wait itself. Round 4: the exception edge of a blocking call carries a partly spent budget (a retry loop around it must re-compute); send loops make progress for every abstract input (C04.prog). Round 5: no timeout / delay / deadline value is tested by truthiness (zero is not 'absent'); the asyncio backend's current_time() is the running loop's clock and the deadline machinery reads no other clock. Round 6: every return of ElapsedTime.recompute_timeout is derived from the measured elapsed time (or is the clamp constant): no wait is free; a budget recomputed in the expression that yields / returns it is read like the assignment form. Round 7: a TimeoutError handler of the blocking clients / endpoints calls no accessor of the object (they take its lock without a deadline).",
     "note": "Trusted: ElapsedTime measures what it encloses; time.perf_counter is monotonic; a None/inf timeout means no deadline. Not decided: measured time, and that TimeoutError is raised only if the operation really could not complete in time.",
     "technique": "typestate (fresh / stale / zero budget, with the set of timers covering the waits) by abstract interpretation over the structured CFG including loop back-edges; shape checks for the cap and the exhausted exits",
 }
